@@ -211,7 +211,9 @@ def c18_run(rep, rng, tier, term):
     # irregular string / list inputs
     odd_strs = ['', ';', '1;;2', ' 1 ; 31 ', '2;', ';1', 'x', '1;x;2', '38;x;5;1', '38;5;x;7', '+1', '-1', '1_0', '38;5;-1', '1;38;5;214',
                 '38;5', '38', '0', '00', '007', '4;58;2;1;2;3;24']
-    for s in odd_strs + [';'.join(rng.choice(['1', '31', '', ' 2', 'x', '38', '5', '214', '-3', '0', '+4']) for _ in range(rng.randint(1, 6))) for _ in range(1500 if tier == 'quick' else 40000)]:
+    str_inputs = odd_strs + [';'.join(rng.choice(['1', '31', '', ' 2', 'x', '38', '5', '214', '-3', '0', '+4']) for _ in range(rng.randint(1, 6))) for _ in range(1500 if tier == 'quick' else 40000)]
+    str_inputs += [';'.join(rng.choice(['1', '31', '', '', '2', '38', '5', '214', '0', '22', '4', '48', '2']) for _ in range(rng.randint(1, 7))) for _ in range(1500 if tier == 'quick' else 40000)]
+    for s in str_inputs:
         for ae in (False, True):
             reqs.append([2, 0, s, ae]); meta.append(('str', s, ae))
     odd_lists = [[], ['1', 31], [' 5 ', '38', 5, 1], ['x', 1], ['', 1], [1, '']]
@@ -261,6 +263,12 @@ def c18_run(rep, rng, tier, term):
                 continue
             if cs and toks != list(cs):
                 out.append({'oracle': 'C18.erroneous', 'case': payload, 'msg': 'tokens %s returned for input %s' % (toks, cs)})
+        # ';'-separated string input: the code list is what a terminal reads from the same characters
+        # (an empty parameter is 0)
+        for w in str_inputs:
+            m = c18_str_oracle(w, term)
+            if m:
+                out.append({'oracle': 'C18.str', 'case': {'string': w}, 'msg': m})
         return out
     viol += term.two_phase(oracle)
     # ---- settings_to_dict on top of a prior state; arguments untouched
@@ -315,8 +323,27 @@ def c18_run(rep, rng, tier, term):
     return viol, div
 
 
+def c18_str_oracle(w, term):
+    import re as _re
+    if not w or not _re.fullmatch('[0-9;]+', w):
+        return None
+    try:
+        settings = parse_graphic_sequence(w, False)
+        d = settings_to_dict(settings)
+    except Exception as e:  # noqa
+        return 'parse_graphic_sequence(%r) raised %r' % (w, e)
+    exp = term.style([w])
+    if exp is None:
+        return None
+    if dict_state(d) != exp:
+        return 'parse_graphic_sequence(%r) gives %s which reduce to %s, a terminal reaches %s' % (w, [str(x) for x in settings], dict_state(d), exp)
+    return None
+
+
 def c18_replay(v, term):
     case = v['case']
+    if 'string' in case:
+        return c18_str_oracle(case['string'], term)
     if 'codes' in case:
         cs = case['codes']
         settings = parse_graphic_sequence(list(cs), False)
